@@ -483,7 +483,7 @@ def run_check(ctx, mod, args, t0):
             unknown.append(v)
     for sig in seen_known:
         print("KNOWN-FINDING: property=%s %s — %s" % (pid, sig, finding_sigs[sig].get("description", "")))
-    rdir = os.path.join(ROOT, "replays")
+    rdir = os.environ.get("VERIF_REPLAY_DIR") or os.path.join(ROOT, "replays")
     done_sigs = set()
     for v in unknown:
         if v["signature"] in done_sigs:
@@ -522,7 +522,9 @@ def run_check(ctx, mod, args, t0):
     ev = {"property_id": pid, "tier": ctx.tier, "seed": ctx.seed, "level": level, "coverage": cov,
           "assumptions": list(getattr(mod, "ASSUMPTIONS", [])), "wall_s": round(time.time() - t0, 2),
           "violations": len(done_sigs) + (1 if (not unknown and (ctx.proof_gaps or ctx.divergences)) else 0)}
-    write_json(os.path.join(ROOT, "evidence", "%s.json" % pid), ev)
+    # VERIF_EVIDENCE_DIR / VERIF_REPLAY_DIR redirect the outputs of development runs against mutated
+    # scratch trees (tools/seedtest.py), so that evidence/ only ever describes runs on /repo itself
+    write_json(os.path.join(os.environ.get("VERIF_EVIDENCE_DIR") or os.path.join(ROOT, "evidence"), "%s.json" % pid), ev)
     print("%s tier=%s seed=%d: %d/%d theorems, %d evaluations (%d distinct non-trivial), %d divergences, "
           "%d known findings seen, %d new violations, %.1fs" % (
               pid, ctx.tier, ctx.seed, len(discharged), len(theorems), ctx.evaluations, len(ctx._keys),
